@@ -127,6 +127,7 @@ pub fn eval(dna: &[u16]) -> Res {
     let mut cfg = GenCfg::full();
     cfg.bounds = false;
     cfg.trait_pct = 40;
+    cfg.const_pct = 40;
     let built = gen::build(&mut d, &cfg);
     let mut s = built.spec;
     assign_bounds(&mut s, &mut d);
